@@ -476,9 +476,53 @@ func runC13(p *engine.Prog, r *engine.Report) {
 				errSucc = cb.Succs[1]
 			}
 		}
-		if errSucc == nil {
-			probs = append(probs, "the error is not tested right after the call")
+		// the test may come a few statements after the call: the blocks entered exactly when the call's error is known
+		// not to be nil
+		var errEntries []*ssa.BasicBlock
+		if errSucc != nil {
+			errEntries = []*ssa.BasicBlock{errSucc}
 		} else {
+			notNil := engine.Not(engine.EqAtom(fi.T(call).S, "nil"))
+			for _, b := range fn.Blocks {
+				if !cb.Dominates(b) || b == cb {
+					continue
+				}
+				if ok, _ := fi.Implies(b, notNil); !ok {
+					continue
+				}
+				first := false
+				for _, pb := range b.Preds {
+					if ok, _ := fi.Implies(pb, notNil); !ok {
+						first = true
+					}
+				}
+				if first {
+					errEntries = append(errEntries, b)
+				}
+			}
+			// and no exit is reachable from the call without the test
+			if len(errEntries) > 0 {
+				tested := fi.MustPass(call, nil, func(in ssa.Instruction) bool {
+					iff, ok := in.(*ssa.If)
+					if !ok {
+						return false
+					}
+					for _, a := range fi.Cond(iff.Cond).Atoms() {
+						if strings.Contains(a, fi.T(call).S) {
+							return true
+						}
+					}
+					return false
+				})
+				if !tested {
+					errEntries = nil
+				}
+			}
+		}
+		if len(errEntries) == 0 {
+			probs = append(probs, "the error is not tested right after the call")
+		}
+		for _, errSucc := range errEntries {
 			isErrStore := func(in ssa.Instruction) bool {
 				st, ok := in.(*ssa.Store)
 				if !ok || st.Addr != ssa.Value(pr.errCell) {
